@@ -15,6 +15,8 @@ import GluonModel.Lemmas.ParamList
 import GluonModel.Lemmas.Structure
 import GluonModel.Lemmas.MimeTree
 import GluonModel.Lemmas.MimeStructTree
+import GluonModel.Lemmas.MimeDepth
+import GluonModel.Generated.Facts.Mime
 
 namespace Gluon.C12
 
@@ -182,6 +184,28 @@ theorem sections_of_built_message (env : HdrEnv) (t : MTree) (hg : t.Good env) :
     parseWalk env t.render = .ok (t.expect 0) :=
   parseWalk_built env t hg
 
+/-- **The section tree is as deep and as large as the MIME tree — at every depth, width and size** — for
+    every well-built (`Good`) MIME tree, `rfc822.Parse` + `Walk` on the rendered bytes returns a section tree
+    whose longest part path has exactly as many numbers as the longest part path of the MIME tree
+    (`pathDepth`: one number per multipart level, none for a message/rfc822 level, whose parts are those of
+    the embedded message) and which has exactly one section per addressable part plus the root.  No depth,
+    no number of sibling parts and no length is excluded: the statement is about every tree, so a parser
+    that stops taking parts apart below some level does not satisfy it (the correspondence dialects
+    `mime-walk` / `mime-struct` and the c12structure oracle look for such a level on the real code around
+    the usual constants; `section_tree_source_shape` pins the source). -/
+theorem sections_depth_of_built_message (env : HdrEnv) (t : MTree) (hg : t.Good env) :
+    ∃ st, parseWalk env t.render = .ok st ∧ st.depth = t.pathDepth ∧ st.count = t.partsBelow + 1 :=
+  ⟨_, parseWalk_built env t hg, (expect_shape t 0).1, (expect_shape t 0).2⟩
+
+/-- **Multiparts nested `n` deep give part paths of `n` numbers, for every `n`** — the `n`-fold nesting
+    `multipart( multipart( … leaf … ) )` (any header and boundary per level, as long as the message is
+    well-built) is walked to a section tree exactly `n` levels deeper than the innermost part's own. -/
+theorem sections_depth_of_nested_multiparts (env : HdrEnv) (hdr bnd : Nat → Bytes) (leaf : MTree) (n : Nat)
+    (hg : (MTree.chainOf hdr bnd leaf n).Good env) :
+    ∃ st, parseWalk env (MTree.chainOf hdr bnd leaf n).render = .ok st ∧ st.depth = n + leaf.pathDepth := by
+  obtain ⟨st, h, hd, _⟩ := sections_depth_of_built_message env _ hg
+  exact ⟨st, h, by rw [hd, chainOf_pathDepth]⟩
+
 /-- **For a well-built message BODY / BODYSTRUCTURE are the MIME tree it was built from — unless
     an embedded message is a multipart.**  For every `Good` MIME tree `t` whose message/rfc822 nodes
     are exactly the ones the media type parser calls "message/rfc822" (`DetOK`) and in which no
@@ -204,6 +228,147 @@ theorem structure_of_built_message_partial (env : HdrEnv) (det : HdrDetail) (q :
     simp [Call.shapeList, Call.shape, vis]
   · rw [paramlist_wellformed q hq]
     simp [Call.shapeList, Call.shape, vis]
+
+/-- **The source has exactly the statements the model has (regenerated from /repo on every run)** — the
+    control skeleton (every `if` condition with its init statement, every loop header and simple statement, in
+    source order) of `Section.Children`, `Section.load`, `Section.Walk`, `Section.Part`, `parse`, `Parse`
+    (rfc822/parser.go) and of `structure`, `childStructures`, `singlePartStructure` (imap/structure.go) is the one
+    `children` / `walk` / `parseSec` (Model/MimeScan.lean) and `structCalls` / `embCalls` (Model/Structure.lean)
+    were written from:
+    `Children()` loads when it has no children yet and returns them — nothing else stands between a section
+    and its parts; `load` takes the children of the embedded message for message/rfc822 and one `parse` per
+    scanned part for a multipart — every part, at every level; `Walk` and `childStructures` visit every child;
+    `structure` branches on `len(children) == 0` alone.  There is no limit on the nesting depth, on the number
+    of parts or on any length in these functions, which is why the theorems above (`sections_within_parent`,
+    `sections_of_built_message`, `structure_of_built_message_partial`: for *every* tree) speak about the code.
+    A statement added to one of these functions — a depth or size cap with whatever constant, an early return —
+    changes this fact and the obligation fails, also where no generated message reaches the constant. -/
+theorem section_tree_source_shape :
+    Facts.mimeTreeSkeleton = [
+      ("rfc822.Section.Children", [
+        "if len(section.children) == 0",
+        "if err := section.load(); err != nil",
+        "return nil, err",
+        "return section.children, nil"
+      ]),
+      ("rfc822.Section.load", [
+        "contentType, contentParams, err := section.ContentType()",
+        "if err != nil",
+        "return err",
+        "if MIMEType(contentType) == MessageRFC822",
+        "child := parse( section.literal[section.body:section.end], section.identifier, 0, section.end-section.body, )",
+        "if err := child.load(); err != nil",
+        "return err",
+        "section.children = append(section.children, child.children...)",
+        "else",
+        "if contentType.IsMultiPart()",
+        "scanner, err := NewByteScanner(section.literal[section.body:section.end], []byte(contentParams[\"boundary\"]))",
+        "if err != nil",
+        "return err",
+        "res := scanner.ScanAll()",
+        "for idx, res := range res",
+        "child := parse( section.literal, append(section.identifier, idx+1), section.body+res.Offset, section.body+res.Offset+len(res.Data), )",
+        "section.children = append(section.children, child)",
+        "return nil"
+      ]),
+      ("rfc822.Section.Walk", [
+        "if err := f(section); err != nil",
+        "return err",
+        "children, err := section.Children()",
+        "if err != nil",
+        "return err",
+        "for _, child := range children",
+        "if err := child.Walk(f); err != nil",
+        "return err",
+        "return nil"
+      ]),
+      ("rfc822.Section.Part", [
+        "if len(identifier) > 0",
+        "children, err := section.Children()",
+        "if err != nil",
+        "return nil, err",
+        "if identifier[0] <= 0 || identifier[0]-1 > len(children)",
+        "return nil, ErrNoSuchPart",
+        "if len(children) != 0",
+        "childIndex := identifier[0] - 1",
+        "if childIndex >= len(children)",
+        "return nil, fmt.Errorf(\"invalid part index\")",
+        "return children[identifier[0]-1].Part(identifier[1:]...)",
+        "return section, nil"
+      ]),
+      ("rfc822.parse", [
+        "header, _ := Split(literal[begin:end])",
+        "parsedHeader, err := NewHeader(header)",
+        "if err != nil",
+        "header = nil",
+        "parsedHeader = nil",
+        "return &Section{ identifier: identifier, literal: literal, parsedHeader: parsedHeader, header: begin, body: begin + len(header), end: end, }"
+      ]),
+      ("rfc822.Parse", [
+        "return parse(literal, []int{}, 0, len(literal))"
+      ]),
+      ("imap.structure", [
+        "children, err := section.Children()",
+        "if err != nil",
+        "return err",
+        "if len(children) == 0",
+        "return singlePartStructure(section, fields, writer)",
+        "if err := childStructures(section, fields, writer); err != nil",
+        "return err",
+        "header, err := section.ParseHeader()",
+        "if err != nil",
+        "return err",
+        "_, mimeSubType, mimeParams, err := getMIMEInfo(section)",
+        "if err != nil",
+        "return err",
+        "fields.addString(writer, mimeSubType)",
+        "extWriter := writer.toSingleWriterFrom2nd()",
+        "fields.addMap(extWriter, mimeParams)",
+        "addDispInfo(fields, extWriter, header)",
+        "fields.addString(extWriter, header.Get(\"Content-Language\")). addString(extWriter, header.Get(\"Content-Location\"))",
+        "return nil"
+      ]),
+      ("imap.childStructures", [
+        "children, err := section.Children()",
+        "if err != nil",
+        "return err",
+        "for _, child := range children",
+        "cl := c.newChildList(writer)",
+        "if err := structure(child, &cl, writer); err != nil",
+        "return err",
+        "cl.finish(writer)",
+        "return nil"
+      ]),
+      ("imap.singlePartStructure", [
+        "header, err := section.ParseHeader()",
+        "if err != nil",
+        "return err",
+        "mimeType, mimeSubType, mimeParams, err := getMIMEInfo(section)",
+        "if err != nil",
+        "return err",
+        "fields. addString(writer, mimeType). addString(writer, mimeSubType). addMap(writer, mimeParams). addString(writer, header.Get(\"Content-Id\")). addString(writer, header.Get(\"Content-Description\")). addString(writer, header.Get(\"Content-Transfer-Encoding\")). addNumber(writer, len(section.Body()))",
+        "if mimeType == \"message\" && mimeSubType == \"rfc822\"",
+        "child := rfc822.Parse(section.Body())",
+        "header, err := child.ParseHeader()",
+        "if err != nil",
+        "return err",
+        "writer.writeByte(' ')",
+        "if err := envelope(header, fields, writer); err != nil",
+        "return err",
+        "cstruct := fields.newChildList(writer)",
+        "if err := structure(child, &cstruct, writer); err != nil",
+        "return err",
+        "cstruct.finish(writer)",
+        "if mimeType == \"text\" || (mimeType == \"message\" && mimeSubType == \"rfc822\")",
+        "fields.addNumber(writer, countLines(section.Body()))",
+        "extWriter := writer.toSingleWriterFrom2nd()",
+        "fields.addString(extWriter, header.Get(\"Content-MD5\"))",
+        "addDispInfo(fields, extWriter, header)",
+        "fields.addString(extWriter, header.Get(\"Content-Language\")). addString(extWriter, header.Get(\"Content-Location\"))",
+        "return nil"
+      ])
+    ] := by
+  rfl
 
 /-- header bytes → what the abstract header machinery answers, for the examples below -/
 def exampleEnv : HdrEnv := fun h =>
@@ -276,6 +441,30 @@ example : exampleTree.Good exampleEnv := by
   simp only [exampleTree, MTree.Good, MTree.GoodList, HdrAt, Fresh, and_true]
   refine ⟨⟨rfl, rfl⟩, by decide, rfl, ⟨⟨rfl, rfl⟩, rfl⟩, rfl, ⟨⟨rfl, rfl⟩, by decide, rfl, ⟨rfl, rfl⟩, rfl⟩, rfl⟩
 
+/-- header blocks `M␣k␍␊␍␊` announce a multipart with boundary `b k` (one boundary per nesting level) -/
+def chainEnv : HdrEnv := fun h =>
+  match h with
+  | [77, k, 13, 10, 13, 10] => { ok := true, ct := .multipart [98, k] }
+  | _ => { ok := true, ct := .other }
+
+/-- three nested multiparts (boundaries `b2`, `b1`, `b0`) around a text part "A" -/
+def exampleChain3 : MTree :=
+  .multi [77, 50, 13, 10, 13, 10] [98, 50] [.multi [77, 49, 13, 10, 13, 10] [98, 49]
+    [.multi [77, 48, 13, 10, 13, 10] [98, 48] [.leaf [13, 10] [65]]]]
+
+example : exampleChain3 = MTree.chainOf (fun k => [77, 48 + k.toUInt8, 13, 10, 13, 10])
+    (fun k => [98, 48 + k.toUInt8]) (.leaf [13, 10] [65]) 3 := rfl
+
+/-- the hypothesis of `sections_depth_of_built_message` / `sections_depth_of_nested_multiparts` is
+    satisfiable by three nested multiparts around a text part … -/
+example : exampleChain3.Good chainEnv := by
+  simp only [exampleChain3, MTree.Good, MTree.GoodList, HdrAt, Fresh, and_true]
+  refine ⟨⟨rfl, rfl⟩, by decide, rfl, ⟨⟨rfl, rfl⟩, by decide, rfl, ⟨⟨rfl, rfl⟩, by decide, rfl, ⟨⟨rfl, rfl⟩, rfl⟩, rfl⟩, rfl⟩, rfl⟩
+
+/-- … whose walked tree is three levels deep and has four sections -/
+example : (exampleChain3.expect 0).depth = 3 ∧ (exampleChain3.expect 0).count = 4 := by
+  rw [(expect_shape _ 0).1, (expect_shape _ 0).2]
+  exact ⟨rfl, rfl⟩
 
 /-- a quoting function that backslash-escapes `"` and `\` (`exampleQuote`, Lemmas/ParamList.lean)
     satisfies the hypothesis `QuoteOK`: the hypothesis is satisfiable by a function that accepts
